@@ -309,7 +309,7 @@ fn membership_check(property: &str, quick: bool) -> Check {
             opts: a.clone(),
             menu: m,
             prefix: p,
-            max_depth: if quick { 10 } else { 12 },
+            max_depth: if quick { 9 } else { 12 },
             max_devs: if quick { 2 } else { 3 },
         });
     }
